@@ -47,6 +47,14 @@ def jobs(tier, seed):
                                 continue
                             out.append({"name": f"step-{move}-{kern}-n{n}-out{int(outl)}-N{N}-thr{thr}", "kind": "step", "move": move, "n": n, "G": 2,
                                         "outliers": outl, "kernel": kern, "wiring": "run", "N": N, "thr": thr, "fixed": {}, "cost": 10 * n ** 3 * N})
+    # boundary of the accepted range: --outlier-prob 1.0 (log p = 0, log(1-p) = -inf)
+    for kern in c01.PROPOSALS:
+        for move in ("pg", "burnin", "subtree"):
+            out.append({"name": f"step-{move}-{kern}-n2-outlier-prob-one", "kind": "step", "move": move, "n": 2, "G": 2, "outliers": True, "p_one": True,
+                        "kernel": kern, "wiring": "run", "N": 2, "thr": "0", "fixed": {}, "cost": 20})
+    for move in ("dp", "prg"):
+        out.append({"name": f"step-{move}-n2-outlier-prob-one", "kind": "step", "move": move, "n": 2, "G": 2, "outliers": True, "p_one": True,
+                    "kernel": None, "wiring": None, "N": 2, "thr": "1/2", "fixed": {}, "cost": 5})
     if tier == "quick":
         # three data points with a single particle (only the retained path and the final draw remain): cheap, and the first size at
         # which the subtree move can select a real clone below a single top-level clone while outliers exist
@@ -223,7 +231,7 @@ def work(job):
     res["status"] = "cex" if res["cex"] else "ok"
     for c in res["cex"]:
         c.update({"finding_key": f"C19:{job.get('move') or 'chain'}:{c['kind']}",
-                  "job": {k: job.get(k) for k in ("kind", "move", "n", "G", "outliers", "kernel", "wiring", "N", "thr", "fixed", "subtree", "burnin", "iters", "conc")}})
+                  "job": {k: job.get(k) for k in ("kind", "move", "n", "G", "outliers", "kernel", "wiring", "N", "thr", "fixed", "subtree", "burnin", "iters", "conc", "p_one")}})
     res["cex"] = res["cex"][:1]
     return res
 
